@@ -20,6 +20,7 @@ structure Req where
 
 inductive Body where
   | doc (idStr : Bytes)     -- a JSON object whose "id" member is this string
+  | raw (parsedID : Option Bytes)  -- arbitrary JSON text; the id go-did's Document parser reads from it (none = rejected): library verdict
   | badjson | big | empty
   deriving Repr, DecidableEq, Inhabited
 
@@ -130,6 +131,9 @@ def resolveWeb (dec : List Nat) (cts : List Bytes) (pol : Policy) (strict : Bool
           match parseDID idStr with
           | .ok docID => if docID.str = d.str then (reqs, .ok docID.str) else (reqs, .err "id-mismatch")
           | _ => (reqs, .err "json")
+        | .raw (some pid) =>
+          -- the id compared is the id of the document that is returned (`document.ID`), whatever other members the text has
+          if pid = d.str then (reqs, .ok pid) else (reqs, .err "id-mismatch")
         | _ => (reqs, .err "json")
 
 /-! ### method router, local-first chain, deactivation -/
